@@ -24,6 +24,8 @@ pub enum Rx {
     Fresh,
     Halted,
     MidPrefix,
+    /// stopped between FD and the ED byte behind it: the next byte fetched is decoded as an ED opcode
+    MidPrefixEd,
     Locked,
     Other,
     Running,
@@ -48,6 +50,11 @@ fn receiver(m128: bool, rx: Rx, latch: u8) -> Emu {
         }
         Rx::MidPrefix => {
             rig::poke(&mut e, 0x8000, &[0xFD, 0xFD, 0x00]);
+            e.verif_cpu().regs.set_pc(0x8000);
+            rig::step(&mut e);
+        }
+        Rx::MidPrefixEd => {
+            rig::poke(&mut e, 0x8000, &[0xFD, 0xED, 0x44]);
             e.verif_cpu().regs.set_pc(0x8000);
             rig::step(&mut e);
         }
@@ -786,7 +793,7 @@ fn scr_files(ctx: &Ctx) {
         for k in 0..4usize {
             // the last two receivers have interrupts enabled (IM 1, ROM handler): the machine the
             // picture is loaded into keeps running its interrupt handler once per frame
-            for (rx, ei) in [(Rx::Fresh, false), (Rx::Halted, false), (Rx::MidPrefix, false), (Rx::Other, false), (Rx::Fresh, true), (Rx::Halted, true)] {
+            for (rx, ei) in [(Rx::Fresh, false), (Rx::Halted, false), (Rx::MidPrefix, false), (Rx::MidPrefixEd, false), (Rx::Other, false), (Rx::Fresh, true), (Rx::Halted, true)] {
                 let content: Vec<u8> = (0..6912).map(|a| if a < 6144 { ((a * 17 + k * 31) % 256) as u8 } else { ((a * 29 + k) % 128) as u8 }).collect();
                 let mut e = receiver(m128, rx, 0);
                 if ei {
@@ -821,7 +828,7 @@ fn scr_files(ctx: &Ctx) {
                     ctx.violation("C14:scr:memory", "display memory does not hold the SCR bytes", case.clone());
                 }
                 e.set_debug_interface(rig::VDebug::at(&[]));
-                let nframes = if ei { 40 } else { 3 };
+                let nframes = if ei || rx.starts_with("MidPrefixEd") { 40 } else { 3 };
                 for _ in 0..nframes {
                     let _ = e.emulate_frames(Duration::from_secs(100));
                 }
